@@ -117,7 +117,7 @@ def run_case(ctx, rng, h):
     live = c01.live_nodes(w)
     case = {"docs": docs_xml, "initial_world": w0, "events": [e["ev"] for e in rec["events"]],
             "classes": rec.get("classes", [])}
-    clone_filter = F_DEFAULT if rng.random() < 0.7 else F_ALL
+    clone_filter = rng.choice([F_DEFAULT, F_DEFAULT, F_DEFAULT, F_ALL, F_ALL, (False, False, True, True), (True, False, False, False)])
     with altered_default_filters():
         try:
             if rng.random() < 0.2:
@@ -178,6 +178,9 @@ def run_case(ctx, rng, h):
                 rec["events"].append({"ev": ("clone", x, deep, ren), "exc": None, "w": w})
         except KeyError as e:
             rec["fail"] = ("clone raises KeyError %s" % e, case)
+            return rec
+        except Exception as e:  # noqa: BLE001
+            rec["fail"] = ("clone under the ambient filter %s raises %s: %s" % (clone_filter, type(e).__name__, e), dict(case, clone_filter=clone_filter))
             return rec
     rec["clone_kind"] = kind
     if rec["fail"]:
@@ -278,6 +281,37 @@ def check_guard(ctx, rec, val):
                 return
 
 
+def empty_tail_cases(ctx):
+    """an empty text node directly behind a comment / PI (comment.add_following_siblings("")): the unchanged code clones
+    such nodes, their ancestors and the document correctly, so this is demanded (outside the classes of the empty-text
+    findings, which concern what is visible in the *edited* tree)"""
+    def view(n):
+        if isinstance(n, TagNode):
+            return ("tag", n.local_name, [view(c) for c in n.iterate_children()])
+        return (type(n).__name__, n.content)
+    for which in (0, 1):
+        for extra in ((), ("x",)):
+            d = Document("<r><!--c--><?p q?><x/></r>")
+            with altered_default_filters():
+                c = d.root[which]
+                c.add_following_siblings("", *extra)
+                for what, f in (("node", lambda: c.clone(deep=True)), ("ancestor", lambda: d.root.clone(deep=True)),
+                                ("document", lambda: d.clone().root)):
+                    ctx.count(1, "clone-with-empty-tail")
+                    ctx.nontrivial_case(("empty-tail", which, extra, what))
+                    case = {"scenario": "empty text behind comment/PI #%d, extra=%r, clone of %s" % (which, extra, what), "classes": []}
+                    try:
+                        r = f()
+                    except Exception as e:  # noqa: BLE001
+                        ctx.fail("cloning with an empty text node behind a comment / PI raises %s: %s" % (type(e).__name__, e), case, classify)
+                        continue
+                    want = view(c) if what == "node" else view(d.root)
+                    if view(r) != want:
+                        ctx.fail("clone differs from the original (empty text behind a comment / PI)", dict(case, clone=view(r), original=want), classify)
+                    elif what == "node" and (r.parent is not None or r._fetch_following_sibling() is not None):
+                        ctx.fail("the clone carries the text that follows the original", case, classify)
+
+
 def wide_case(ctx, n):
     """a node with very many direct children is cloned like any other"""
     ctx.count(1, "wide-clone")
@@ -305,6 +339,7 @@ def run(ctx, args):
     quick = ctx.tier == "quick"
     with no_gc():
         wide_case(ctx, 800 if quick else 1200)
+        empty_tail_cases(ctx)
         for b in range(1 if quick else 10):
             recs = [run_case(ctx, ctx.rng, b * 1000 + h) for h in range(220 if quick else 300)]
             terms = []
